@@ -781,6 +781,9 @@ fn c11_big_texts(n: usize) -> Vec<String> {
         format!("begin\n  x := {};\nend.\n", list(" + ", &|i| (i % 7).to_string())),
         format!("uses {};\n", list(", ", &|i| format!("Unit{i}"))),
         format!("const S = {};\n", list(" + ", &|i| format!("'s{}'", i % 11))),
+        // one compound statement whose body has thousands of statements (all of them child lines of one line)
+        format!("begin\n  if a then\n  begin\n{}  end;\nend.\n", (0..n / 2).map(|i| format!("    x{} := f(aaaa, bbbb{});\n", i % 9, i % 5)).collect::<String>()),
+        format!("begin\n  case a of\n    1:\n    begin\n{}    end;\n  end;\nend.\n", (0..n / 2).map(|i| format!("      y{} := g(cccc) + h(dddd{});\n", i % 9, i % 5)).collect::<String>()),
     ]
 }
 
